@@ -31,5 +31,6 @@ def standins(tier, seed):
     cfgs = [dict(p=2, q=0, r=1, random=3), dict(p=3, random=3), dict(p=2, q=1, wrapper='wraps', random=2)] if tier == 'quick' else \
         [dict(p=2, q=0, r=1, random=10), dict(p=3, random=10), dict(p=2, q=2, random=6), dict(p=3, q=0, r=1, random=6),
          dict(p=2, q=1, wrapper='identity', random=6), dict(p=2, q=1, wrapper='wraps', random=6), dict(p=2, cse=False, random=6)]
-    return [{'name': f'count#{i}', 'bound': 'seeded key patterns x value kinds int/float/Fraction/ndarray/sympy; compile(), do_codegen, do_compile events counted on repeats',
+    cfgs.append(dict(p=4, random=0, sweep=400 if tier == 'quick' else 3000))
+    return [{'name': f'count#{i}', 'bound': 'seeded key patterns x value kinds int/float/Fraction/ndarray/sympy; compile(), do_codegen, do_compile events counted on repeats; a sweep of 400 (thorough: 3000) distinct patterns through one unary and one binary operator, revisited twice',
              'job': {'kind': 'count', 'module': 'standins.jobs2', 'ops': ops, 'configs': [c], 'seed': seed + i}} for i, c in enumerate(cfgs)]
